@@ -2615,7 +2615,7 @@ func loopBound(h *ssa.BasicBlock, fn *ssa.Function) string {
 		if !ok {
 			continue
 		}
-		derives := func(v ssa.Value, pred func(ssa.Value) bool) bool {
+		derivesMode := func(v ssa.Value, pred func(ssa.Value) bool, allSites bool) bool {
 			seen := map[ssa.Value]bool{}
 			var w func(v ssa.Value, d int) bool
 			w = func(v ssa.Value, d int) bool {
@@ -2627,6 +2627,33 @@ func loopBound(h *ssa.BasicBlock, fn *ssa.Function) string {
 					return true
 				}
 				switch x := v.(type) {
+				case *ssa.Parameter:
+					// a number handed in: what the callers pass (every one of
+					// them for a bound that is to be trusted, any one for a
+					// bound that is to be reported)
+					if curProgram == nil || x.Parent() == nil {
+						return false
+					}
+					k := -1
+					for i, q := range x.Parent().Params {
+						if q == x {
+							k = i
+						}
+					}
+					sites := staticCallSites(curProgram, x.Parent())
+					if len(sites) == 0 || k < 0 {
+						return false
+					}
+					n := 0
+					for _, site := range sites {
+						if args := site.Common().Args; k < len(args) && w(args[k], d+1) {
+							n++
+						}
+					}
+					if allSites {
+						return n == len(sites)
+					}
+					return n > 0
 				case *ssa.Phi:
 					for _, e := range x.Edges {
 						if w(e, d+1) {
@@ -2644,7 +2671,18 @@ func loopBound(h *ssa.BasicBlock, fn *ssa.Function) string {
 			}
 			return w(v, 0)
 		}
+		derives := func(v ssa.Value, pred func(ssa.Value) bool) bool {
+			return derivesMode(v, pred, true)
+		}
 		isUint16 := func(v ssa.Value) bool {
+			// the operand as a function that decodes the instruction hands it back
+			if ex, ok := v.(*ssa.Extract); ok {
+				if c, ok := ex.Tuple.(*ssa.Call); ok {
+					if d, ok := decoderOf(c.Call.StaticCallee()); ok && ex.Index == d.argIdx {
+						return true
+					}
+				}
+			}
 			if c, ok := v.(*ssa.Call); ok {
 				if cal := c.Call.StaticCallee(); cal != nil && cal.Name() == "Uint16" {
 					return true
@@ -2685,7 +2723,7 @@ func loopBound(h *ssa.BasicBlock, fn *ssa.Function) string {
 			}
 		}
 		for _, side := range []ssa.Value{bo.X, bo.Y} {
-			if derives(side, isValueField) {
+			if derivesMode(side, isValueField, false) {
 				return "range-constructor"
 			}
 		}
